@@ -105,11 +105,13 @@ def finish(ctx: Ctx, t0, seed, extra_cov=None, print_fn=print):
     findings = ctx.findings
     def _is_known(o):
         # ("*" as statement: only written by selftest/make_base_known.py for trees of older commits)
-        return Ctx.key(o) in known_keys or (o["rule"], o["instance"], "*") in known_keys
+        return Ctx.key(o) in known_keys or (o["rule"], o["instance"], "*") in known_keys or \
+            any(k_[0] == o["rule"] and k_[2] == "*" and k_[1].startswith("*") and o["instance"].endswith(k_[1][1:]) for k_ in known_keys)
     new = [o for o in findings if not _is_known(o)]
     old = [o for o in findings if _is_known(o)]
     for o in old:
-        k = next(k for k in known if (k["rule"], k["instance"]) == (o["rule"], o["instance"]) and k.get("statement", "") in (o["stmt"], "*"))
+        k = next(k for k in known if k["rule"] == o["rule"] and (k["instance"] == o["instance"] or (k["instance"].startswith("*") and o["instance"].endswith(k["instance"][1:])))
+                 and k.get("statement", "") in (o["stmt"], "*"))
         print_fn(f"KNOWN-FINDING: property={ctx.pid} {k.get('short') or k.get('what', o['why'])} [{o['rule']} {o['instance']}]")
     os.makedirs(EVIDENCE_DIR, exist_ok=True)
     os.makedirs(REPORT_DIR, exist_ok=True)
